@@ -428,14 +428,21 @@ class VarsManager(object):
                 value = self.bnd_dic[name].get_y2x(value)
         self.variables[name].assign(value)
         self.variables[name]._trainable = unfix
+        # names tied to this one (set_same) share its variable
+        tied = [
+            i
+            for i in self.trainable_vars
+            if self.variables[i] is self.variables[name]
+        ]
         if unfix:
             if name in self.trainable_vars:
                 warnings.warn("{} has been freed already!".format(name))
-            else:
+            elif not tied:
                 self.trainable_vars.append(name)
         else:
-            if name in self.trainable_vars:
-                self.trainable_vars.remove(name)
+            if tied:
+                for i in tied:
+                    self.trainable_vars.remove(i)
             else:
                 warnings.warn("{} has been fixed already!".format(name))
 
